@@ -84,6 +84,14 @@ def gen_obo_scn_c14f(Scn, rng, sid):
                 line = "q %d r%d deltopic %d" % (own[0], rid, k)
         if line:
             sc.bursts.append([line])
+    # tail (laws only, the model comparison stops before it): a member whose user a root session is attached as
+    # unsubscribes ({leave unsub} -> Topic.evictUser detaches every session attached as that user, the root one included)
+    if rng.random() < 0.35:
+        cand = [(s, k) for (s, k), u in sorted(att.items()) if s not in roots and s in alive and u != sc.topics[k]["owner"]
+                and any(x in roots and kk == k and uu == u for (x, kk), uu in att.items())]
+        if cand:
+            s, k = rng.choice(cand)
+            sc.bursts.append(["q %d r%d leave %d 1" % (s, rid + 1, k)])
     return sc
 
 
@@ -134,6 +142,8 @@ def obo_model_lines(sc):
             att[(s, k)] = u
             lines.append("on att %s:%d %d %d" % (sc.id, k, s, u))
             last[k] = len(lines) - 1
+        elif kind == "leave" and w[5] == "1":
+            break       # {leave unsub}: evictUser is not part of the counter model; the laws judge the rest
         elif kind == "leave":
             k = int(w[4])
             att.pop((s, k), None)
